@@ -58,6 +58,25 @@ func main() {
 		if !ok {
 			os.Exit(1)
 		}
+	case "frame":
+		// print the inferred frame of the functions whose name contains the argument
+		fc := &FnCtx{eng: eng, smt: newSMTCtx(), keySort: map[string]string{}, notes: map[string]bool{}, heap0: map[string]string{}}
+		for _, a := range fs.Args() {
+			for k, fn := range eng.fnByKey {
+				if strings.Contains(shortKey(k), a) {
+					fr := fc.inferFrame(fn)
+					var ks []string
+					for key := range fr.keys {
+						ks = append(ks, key)
+					}
+					sort.Strings(ks)
+					fmt.Printf("%s: all=%v (%s) locks=%v keys=%d\n", shortKey(k), fr.all, fr.why, fr.locks, len(ks))
+					for _, key := range ks {
+						fmt.Println("   ", key)
+					}
+				}
+			}
+		}
 	case "expect":
 		// record the obligation names of the given properties (run on the unchanged tree only)
 		for _, p := range strings.Split(*prop, ",") {
